@@ -54,7 +54,7 @@ func c11single(c *mon.Ctx, g *engine, d int, op string, rng *rand.Rand) {
 		c.Fail("operand-modified/MapToScalarField", "MapToScalarField modified the element", nil)
 	}
 	c.Count("single_maps_checked", 1)
-	kind := rng.Intn(6)
+	kind := rng.Intn(NumRepKinds)
 	q := Rerepresent(&p, kind, rng)
 	var got2 fr.Element
 	q.MapToScalarField(&got2)
@@ -83,7 +83,7 @@ func c11batch(c *mon.Ctx, g *engine, rng *rand.Rand) {
 		case dupMode >= 1:
 			elems[i] = &g.e[j]
 		default:
-			store[i] = Rerepresent(&g.e[j], rng.Intn(6), rng)
+			store[i] = Rerepresent(&g.e[j], rng.Intn(NumRepKinds), rng)
 			elems[i] = &store[i]
 		}
 		if isIdentityClass(shad[i]) {
